@@ -9,7 +9,7 @@ Oracle : a 30-line transcription of the statement (model.time_windows): referenc
 """
 import itertools
 
-from ..common import Check, Outcome, bootstrap, interleave, with_prelude, prelude_tags, shrink_prelude, PRELUDE_TAGS, PRELUDE_RULE
+from ..common import Check, Outcome, bootstrap, interleave, with_prelude, with_reuse, prelude_tags, shrink_prelude, PRELUDE_TAGS, PRELUDE_RULE
 from .. import windows, model
 
 rs = bootstrap()
@@ -43,11 +43,11 @@ class C07(Check):
     ASSUMPTIONS = ['timestamps are non-decreasing per key; timeouts are >= 0 (a zero timeout makes every item open a new window, as the statement says)',
                    'closing_mapper returns a bool']
     ANCHORS = ['rxsci/data/time_split.py', 'rxsci/operators/multiplex.py']
-    REQUIRED_TAGS = ['top', 'group', 'active', 'inactive', 'no-timeout', 'closing', 'include', 'exclude', 'datetime', 'equal-timestamps', 'gap=timeout', 'day-scale', 'zero-timeout', 'aware-datetimes-mixed-offsets'] + PRELUDE_TAGS
+    REQUIRED_TAGS = ['top', 'group', 'active', 'inactive', 'no-timeout', 'closing', 'include', 'exclude', 'datetime', 'equal-timestamps', 'gap=timeout', 'day-scale', 'zero-timeout', 'aware-datetimes-mixed-offsets', 'no-timestamps-closing-mapper-only'] + ['operator-object-used-in-two-pipelines'] + PRELUDE_TAGS
     REQUIRED_OBSERVED = ['child_lifetimes_checked', 'parent_lifetimes_checked', 'empty_windows_dropped']
 
     def generate(self, rng, tier, shard, nshards):
-        return with_prelude(self._generate(rng, tier, shard, nshards), rng)
+        return with_prelude(with_reuse(self._generate(rng, tier, shard, nshards)), rng)
 
     def _generate(self, rng, tier, shard, nshards):
         return interleave(self._box(tier, shard, nshards), self._random(rng, tier))
@@ -92,6 +92,8 @@ class C07(Check):
                 items.append(t)
             cfg = {'active': a, 'inactive': b, 'closing': rng.choice([None, 'modeq:3:0', 'modeq:2:1', 'true', 'modeq:7:0']),
                    'include': rng.random() < 0.5, 'time': rng.choice(['id', 'dt', 'dtz'])}
+            if cfg['active'] is None and cfg['inactive'] is None and cfg['closing'] and j % 2:
+                cfg['time'] = 'tnone'
             yield {'cfg': cfg, 'parent': name, 'parent_node': windows.PARENTS[name](rng), 'items': items}
 
     def evaluate(self, case):
@@ -108,6 +110,8 @@ class C07(Check):
             out.tags.append('zero-timeout')       # a timeout of zero is not 'no timeout': every item opens its own window
         if cfg['closing']:
             out.tags += ['closing', 'include' if cfg['include'] else 'exclude']
+        if cfg.get('time') == 'tnone':
+            out.tags.append('no-timestamps-closing-mapper-only')
         if cfg.get('time') == 'dtz':
             out.tags.append('aware-datetimes-mixed-offsets')
         if cfg.get('time') in ('dt', 'dtz'):
@@ -119,7 +123,9 @@ class C07(Check):
             out.tags.append('equal-timestamps')
         if (cfg['active'] in gaps) or (cfg['inactive'] in gaps):
             out.tags.append('gap=timeout')
-        ob = windows.observe(case['parent_node'], ['time_split', cfg, None], items, prelude=case.get('prelude'))
+        if case.get('reuse'):
+            out.tags.append('operator-object-used-in-two-pipelines')
+        ob = windows.observe(case['parent_node'], ['time_split', cfg, None], items, prelude=case.get('prelude'), reuse=bool(case.get('reuse')))
         prelude_tags(case, out)
         if ob.snap.err is not None or not ob.snap.done:
             return out.fail('time_split:stream-error', error=repr(ob.snap.err), done=ob.snap.done)
